@@ -166,6 +166,32 @@ KERNELS.append(dict(name="cache_key", file="recon_buildblock/ProjMatrixByBin.cxx
     bind={"bin.axial_pos_num()": ("param", "ax"), "bin.tangential_pos_num()": ("param", "tang"), "bin.timing_pos_num()": ("param", "tof")},
     outputs=["$return"], ret="U64"))
 
+# ---- C02: the address arithmetic of projection data (range checks -> error number, std::find over the segment / TOF sequences,
+#      the loop over the preceding segments, the two storage orders).  64-bit types are modelled as unbounded Int (wide_int).
+_PD_PARAMS = [("segSeq", "List Int"), ("tofSeq", "List Int"), ("minSeg", "Int"), ("maxSeg", "Int"),
+              ("minAx", "Int → Int"), ("maxAx", "Int → Int"), ("numAx", "Int → Int"),
+              ("minView", "Int"), ("maxView", "Int"), ("numViews", "Int"), ("minTang", "Int"), ("maxTang", "Int"), ("numTang", "Int"),
+              ("minTof", "Int"), ("maxTof", "Int"), ("numTof", "Int")]
+_PD_BIND = {"this_bin.segment_num()": ("param", "seg"), "this_bin.axial_pos_num()": ("param", "ax"), "this_bin.view_num()": ("param", "view"),
+            "this_bin.tangential_pos_num()": ("param", "tang"), "this_bin.timing_pos_num()": ("param", "tof"),
+            "get_min_segment_num()": ("param", "minSeg"), "get_max_segment_num()": ("param", "maxSeg"),
+            "get_min_view_num()": ("param", "minView"), "get_max_view_num()": ("param", "maxView"), "get_num_views()": ("param", "numViews"),
+            "get_min_tangential_pos_num()": ("param", "minTang"), "get_max_tangential_pos_num()": ("param", "maxTang"),
+            "get_num_tangential_poss()": ("param", "numTang"),
+            "get_min_tof_pos_num()": ("param", "minTof"), "get_max_tof_pos_num()": ("param", "maxTof"),
+            "proj_data_info_sptr->get_num_tof_poss()": ("param", "numTof"),
+            "segment_sequence": ("list", "segSeq"), "timing_poss_sequence": ("list", "tofSeq")}
+_PD_FUN = {"get_min_axial_pos_num": "minAx", "get_max_axial_pos_num": "maxAx", "get_num_axial_poss": "numAx"}
+_PD_BIN = [("seg", "Int"), ("view", "Int"), ("ax", "Int"), ("tang", "Int"), ("tof", "Int")]
+KERNELS.append(dict(name="get_index", file="buildblock/ProjDataInMemory.cxx", cls="ProjDataInMemory", function="get_index", mode="function",
+    params=_PD_PARAMS + [("offset_3d_data", "Int")] + _PD_BIN, bind=dict(_PD_BIND), bind_fun=_PD_FUN,
+    wide_int=True, error_calls=True, outputs=["$return"], ret="Int"))
+KERNELS.append(dict(name="get_offset", file="buildblock/ProjDataFromStream.cxx", cls="ProjDataFromStream", function="get_offset", mode="function",
+    params=_PD_PARAMS + [("order", "Int"), ("elemSize", "Int"), ("offset", "Int"), ("offset_3d_data", "Int")] + _PD_BIN,
+    bind=dict(_PD_BIND, **{"get_storage_order()": ("param", "order"), "on_disk_data_type.size_in_bytes()": ("param", "elemSize")}),
+    bind_fun=_PD_FUN, enum_types=["ProjDataFromStream::StorageOrder"], fields_header="stir/ProjDataFromStream.h",
+    wide_int=True, error_calls=True, outputs=["$return"], ret="Int"))
+
 
 class Reject(Exception):
     """the kernel leaves the supported subset / cannot be located"""
@@ -285,6 +311,8 @@ def unparse(n):
         callee = strip_casts(ch[0])
         if callee.get("kind") == "DeclRefExpr" and callee["referencedDecl"].get("name") == "operator[]" and len(ch) == 3:
             return unparse(ch[1]) + "[" + unparse(ch[2]) + "]"
+        if callee.get("kind") == "DeclRefExpr" and callee["referencedDecl"].get("name") == "operator->" and len(ch) == 2:
+            return unparse(ch[1])     # smart pointer: `p->m` reads as for a plain pointer
         return "<CXXOperatorCallExpr %s>" % callee.get("referencedDecl", {}).get("name")
     if k == "ArraySubscriptExpr":
         return unparse(ch[0]) + "[" + unparse(ch[1]) + "]"
@@ -307,6 +335,14 @@ def unparse(n):
     return "<%s>" % k
 
 
+def strip_casts_this(n):
+    """like strip_casts, also through the derived-to-base conversions of an implicit `this`"""
+    n = strip_casts(n)
+    while n.get("kind") == "ImplicitCastExpr" and kids(n):
+        n = strip_casts(kids(n)[0])
+    return n
+
+
 def strip_casts(n):
     while n.get("kind") in ("ImplicitCastExpr", "ParenExpr", "MaterializeTemporaryExpr", "ExprWithCleanups") and kids(n):
         n = kids(n)[0]
@@ -318,7 +354,7 @@ def strip_casts(n):
 LEAN_KEYWORDS = set("""abbrev at axiom by class def deriving do else end example export extends for from fun have if import in
  inductive infix infixl infixr instance let local macro match mut mutual namespace noncomputable notation open opaque partial
  postfix prefix private protected return section set_option show structure syntax then theorem try unless universe unsafe
- using variable where with true false default max min shr iabs b2i Int Bool Id pure decide""".split())
+ using variable where with true false default max min shr iabs b2i Int Bool Id pure decide vecFind vecGet forRange""".split())
 
 
 def lean_ident(name):
@@ -329,12 +365,23 @@ def lean_ident(name):
     return name
 
 
-def ctype_to_lean(qt):
-    """declared C type of a variable -> (Lean type, is_const) or None"""
+WIDE_TYPES = (["long"], ["unsigned", "long"], ["std::streamoff"], ["streamoff"], ["std::size_t"], ["size_t"], ["std::ptrdiff_t"],
+              ["std::vector::size_type"], ["std::vector<int>::size_type"])
+
+
+def ctype_to_lean(qt, wide=False, enums=()):
+    """declared C type of a variable -> (Lean type, is_const) or None.
+    wide: the kernel's contract says that 64-bit integer types (long / unsigned long and their typedefs) are modelled as unbounded
+    `Int` (sound while no intermediate value leaves [0, 2^63): recorded as an assumption of the kernel);
+    enums: names of enumeration types that are modelled by the integer value of their enumerators."""
     q = qt.replace("&", " ").split()
     const = "const" in q
     q = [w for w in q if w != "const"]
     if q == ["int"]:
+        return "Int", const
+    if wide and q in WIDE_TYPES:
+        return "Int", const
+    if len(q) == 1 and q[0].replace("stir::", "") in enums:
         return "Int", const
     if q == ["bool"]:
         return "Bool", const
@@ -380,6 +427,16 @@ class Translator:
         self.scope_names |= set(self.state)
 
     # ---- helpers
+    def ctl(self, tnode_or_qt):
+        """Lean type of a clang type (a `type` dict of the JSON AST, or a qualType string)"""
+        wide, enums = bool(self.spec.get("wide_int")), tuple(self.spec.get("enum_types", ()))
+        if isinstance(tnode_or_qt, dict):
+            t = ctype_to_lean(tnode_or_qt.get("qualType", ""), wide, enums)
+            if t is None and wide and tnode_or_qt.get("desugaredQualType"):
+                t = ctype_to_lean(tnode_or_qt["desugaredQualType"], wide, enums)
+            return t
+        return ctype_to_lean(tnode_or_qt or "", wide, enums)
+
     def collect_decls(self, n):
         if isinstance(n, dict):
             if n.get("kind") in ("VarDecl", "ParmVarDecl") and "id" in n:
@@ -399,7 +456,7 @@ class Translator:
             self.reject(n, "reference to `%s`, which is neither a local of the kernel nor a parameter of the contract %s"
                         % (name, [p for p, _ in self.spec["params"]]))
         if want_ctype is not None:
-            t = ctype_to_lean(want_ctype)
+            t = self.ctl(want_ctype)
             if t is None or t[0] != self.params[name]:
                 self.reject(n, "`%s` has C type `%s` but the contract says %s" % (name, want_ctype, self.params[name]))
         self.used_params.add(name)
@@ -428,7 +485,7 @@ class Translator:
         qt = n.get("type", {}).get("qualType")
         if qt is None or "dependent" in qt:
             return
-        t = ctype_to_lean(qt)
+        t = self.ctl(n.get("type", {}))
         if t is None:
             self.reject(n, "expression of type `%s` (only int and bool are supported)" % qt)
         if t[0] != got:
@@ -466,6 +523,39 @@ class Translator:
             self.reject(n, "read of a write-only output")
         if k in ("ParenExpr", "MaterializeTemporaryExpr", "ExprWithCleanups"):
             return self.expr(ch[0])
+        if k == "CXXOperatorCallExpr" and len(ch) == 3:
+            callee = strip_casts(ch[0])
+            opname = callee.get("referencedDecl", {}).get("name") if callee.get("kind") == "DeclRefExpr" else None
+            if opname == "operator-":
+                # `std::find(S.begin(), S.end(), e) - S.begin()` on a vector<int> S that the contract binds as a list
+                lhs, rhs = strip_casts(ch[1]), strip_casts(ch[2])
+                if lhs.get("kind") == "CallExpr" and len(kids(lhs)) == 4:
+                    fc = strip_casts(kids(lhs)[0])
+                    a0, a1, a2 = kids(lhs)[1:]
+                    if fc.get("kind") == "DeclRefExpr" and fc.get("referencedDecl", {}).get("name") == "find":
+                        t0, t1, t2 = unparse(strip_casts(a0)), unparse(strip_casts(a1)), unparse(rhs)
+                        if t0.endswith(".begin()") and t1 == t0[:-len(".begin()")] + ".end()" and t2 == t0:
+                            lb = self.spec["bind"].get(t0[:-len(".begin()")])
+                            if lb is not None and lb[0] == "list":
+                                lst = self.use_param(n, lb[1])[0]
+                                e = self.as_int(self.expr(a2))[0]
+                                return "(vecFind %s %s)" % (lst, e), "Int"
+                self.reject(n, "iterator difference that is not `std::find(S.begin(), S.end(), e) - S.begin()` on a contract-bound vector")
+            if opname == "operator[]":
+                lb = self.spec["bind"].get(unparse(strip_casts(ch[1])))
+                if lb is not None and lb[0] == "list":
+                    lst = self.use_param(n, lb[1])[0]
+                    return "(vecGet %s %s)" % (lst, self.as_int(self.expr(ch[2]))[0]), "Int"
+        if k == "CXXMemberCallExpr" and ch and ch[0].get("kind") == "MemberExpr" and ch[0].get("name") in self.spec.get("bind_fun", {}) \
+                and kids(ch[0]) and strip_casts_this(kids(ch[0])[0]).get("kind") == "CXXThisExpr" and len(ch) == 2:
+            # a getter with one integer argument that the contract represents by a function parameter
+            f = self.use_param(n, self.spec["bind_fun"][ch[0]["name"]])[0]
+            return "(%s %s)" % (f, self.as_int(self.expr(ch[1]))[0]), "Int"
+        if k == "DeclRefExpr" and n.get("referencedDecl", {}).get("kind") == "EnumConstantDecl":
+            nm = n["referencedDecl"].get("name")
+            if nm in getattr(self, "enum_values", {}):
+                return str(self.enum_values[nm]), "Int"
+            self.reject(n, "enumerator `%s` of an enumeration the contract does not list" % nm)
         if k == "IntegerLiteral":
             qt = n.get("type", {}).get("qualType")
             if qt != "int":
@@ -481,7 +571,7 @@ class Translator:
             if ck == "IntegralToBoolean":
                 return self.as_bool(inner)
             if ck == "IntegralCast":
-                t = ctype_to_lean(n.get("type", {}).get("qualType", ""))
+                t = self.ctl(n.get("type", {}))
                 if t is None:
                     self.reject(n, "integral cast to `%s`" % n.get("type", {}).get("qualType"))
                 if t[0] == "U64":
@@ -500,13 +590,13 @@ class Translator:
                 return self.hoisted_ids[rd["id"]]
             name = rd.get("name", "?")
             if name in self.params:
-                return self.use_param(n, name, rd.get("type", {}).get("qualType"))
+                return self.use_param(n, name, rd.get("type", {}))
             return self.hoist(n, rd)
         if k == "MemberExpr":
             if ch and strip_casts(ch[0]).get("kind") == "CXXThisExpr" and n.get("name") in getattr(self, "const_fields", {}):
                 return self.const_fields[n.get("name")]
             if ch and strip_casts(ch[0]).get("kind") == "CXXThisExpr":
-                return self.use_param(n, n.get("name", "?"), n.get("type", {}).get("qualType"))
+                return self.use_param(n, n.get("name", "?"), n.get("type", {}))
             self.reject(n, "member access that is not `this->member`")
         if k == "CXXDependentScopeMemberExpr":
             if ch and strip_casts(ch[0]).get("kind") == "CXXThisExpr" and n.get("member") in self.spec.get("dependent_fields", {}):
@@ -543,7 +633,7 @@ class Translator:
         self.reject(n, "unsupported expression")
 
     def binop(self, n, op, l, r):
-        qt = ctype_to_lean(n.get("type", {}).get("qualType", "") or "")
+        qt = self.ctl(n.get("type", {}))
         if qt is not None and qt[0] == "U64":
             a, b = self.as_u64(self.expr(l)), self.as_u64(self.expr(r))
             if op == "+":
@@ -586,7 +676,7 @@ class Translator:
         if d is None or d.get("kind") != "VarDecl":
             self.reject(n, "reference to `%s`, which is neither a local of the kernel nor a parameter of the contract %s"
                         % (name, [p for p, _ in self.spec["params"]]))
-        t = ctype_to_lean(d.get("type", {}).get("qualType", ""))
+        t = self.ctl(d.get("type", {}))
         init = kids(d)
         if t is None or not t[1] or not init:
             self.reject(n, "reference to `%s` (declared `%s` outside the kernel): only contract parameters and `const int/bool` locals "
@@ -612,6 +702,8 @@ class Translator:
         b = self.bound(m)
         if b is not None:
             if b[0] in ("state", "out"):
+                if getattr(self, "loop_rec", None) is not None:
+                    self.loop_rec.append((b[1], b[2]))
                 return "var", b[1], b[2]
             if b[0] == "ignore":
                 return ("ignore",)
@@ -620,6 +712,8 @@ class Translator:
             name, ty, mutable = self.locals[m["referencedDecl"]["id"]]
             if not mutable:
                 self.reject(n, "assignment to const `%s`" % name)
+            if getattr(self, "loop_rec", None) is not None:
+                self.loop_rec.append((name, ty))
             return "var", name, ty
         self.reject(n, "assignment to an lvalue that is not a local of the kernel and not bound by the contract")
 
@@ -646,7 +740,10 @@ class Translator:
         dead = False
         for s in nodes:
             if dead:
+                if getattr(self, "last_was_error", False) and s.get("kind") == "ReturnStmt":
+                    continue      # `error(...); return x;` — error() does not return, the statement is there to silence a compiler warning
                 self.reject(s, "statement after `return`")
+            self.last_was_error = False
             out += self.stmt(s, ind)
             dead = self.assigned is ALL
         return out
@@ -674,7 +771,7 @@ class Translator:
             for d in ch:
                 if d.get("kind") != "VarDecl":
                     self.reject(d, "declaration of something that is not a variable")
-                t = ctype_to_lean(d.get("type", {}).get("qualType", ""))
+                t = self.ctl(d.get("type", {}))
                 if t is None or "&" in d.get("type", {}).get("qualType", ""):
                     self.reject(d, "local of type `%s` (only int and bool)" % d.get("type", {}).get("qualType"))
                 name = lean_ident(d["name"])
@@ -724,6 +821,18 @@ class Translator:
                 self.reject(n, "increment of a bool")
             self.read_var(n, lv[1])
             return [pad + "%s := (%s %s 1)" % (lv[1], lv[1], n["opcode"][0])]
+        if k == "CallExpr" and self.spec.get("error_calls"):
+            callee = strip_casts(ch[0])
+            if callee.get("kind") == "DeclRefExpr" and callee.get("referencedDecl", {}).get("name") == "error":
+                # stir::error(...) throws: the kernel's result is (number of the error call in source order, 0)
+                if self.spec["mode"] != "function" or getattr(self, "in_loop", False):
+                    self.reject(n, "error(...) inside a loop / a kernel that is a fragment of a function")
+                self.err_count = getattr(self, "err_count", 0) + 1
+                self.assigned = ALL
+                self.last_was_error = True
+                return [pad + "return (%d, 0)" % self.err_count]
+        if k == "ForStmt":
+            return self.for_stmt(n, ch, ind)
         if k == "IfStmt":
             if n.get("hasInit") or n.get("hasVar") or n.get("isConstexpr") or len(ch) not in (2, 3):
                 self.reject(n, "if statement with initialiser / condition variable / constexpr")
@@ -745,6 +854,8 @@ class Translator:
         if k == "ReturnStmt":
             if self.spec["mode"] != "function":
                 self.reject(n, "`return` inside a kernel that is a fragment of a function")
+            if getattr(self, "in_loop", False):
+                self.reject(n, "`return` inside a loop")
             if not ch:
                 # `return;` of a void function: the result is the tuple of the bound state variables
                 if "$return" in self.spec["outputs"]:
@@ -777,13 +888,79 @@ class Translator:
                 self.assigned = ALL
                 return [line]
             rv = self.conv(self.expr(ch[0]), self.spec["ret"])
+            if self.spec.get("error_calls"):
+                rv = "(0, %s)" % rv      # no error() call was reached
             line = pad + "return " + self.ret_tuple(rv)
             self.assigned = ALL
             return [line]
         self.reject(n, "unsupported statement")
 
+    def for_stmt(self, n, ch, ind):
+        """`for (int i = lo; i < hi; i++) body` (also `<=`, `++i`): a counted loop whose bounds do not depend on what the body
+        changes.  Result: `vars := forRange lo (hi - lo).toNat (fun i vars => body) vars` for the variables the body assigns."""
+        pad = "  " * ind
+        if len(ch) != 4 or ch[0].get("kind") != "DeclStmt":
+            self.reject(n, "for loop that is not `for (int i = lo; cond; step) body`")
+        d = kids(ch[0])
+        if len(d) != 1 or d[0].get("kind") != "VarDecl" or self.ctl(d[0].get("type", {})) != ("Int", False) or not kids(d[0]) \
+                or d[0].get("type", {}).get("qualType") != "int":
+            self.reject(n, "loop variable must be one non-const `int` with an initialiser")
+        iv = d[0]
+        cond, inc, body = ch[1], ch[2], ch[3]
+        def is_iv(x):
+            x = strip_casts(x)
+            return x.get("kind") == "DeclRefExpr" and x.get("referencedDecl", {}).get("id") == iv["id"]
+        if cond.get("kind") != "BinaryOperator" or cond.get("opcode") not in ("<", "<=") or not is_iv(kids(cond)[0]):
+            self.reject(cond, "loop condition must be `i < hi` or `i <= hi`")
+        if inc.get("kind") != "UnaryOperator" or inc.get("opcode") != "++" or not is_iv(kids(inc)[0]):
+            self.reject(inc, "loop step must be `i++` / `++i`")
+        if getattr(self, "in_loop", False):
+            self.reject(n, "nested loop")
+        self.loop_count = getattr(self, "loop_count", 0) + 1
+        lo_name, hi_name = "lo%d" % self.loop_count, "hi%d" % self.loop_count
+        lo = self.as_int(self.expr(kids(iv)[0]))[0]
+        hi = self.as_int(self.expr(kids(cond)[1]))[0]
+        if cond.get("opcode") == "<=":
+            hi = "(%s + 1)" % hi
+        iname = lean_ident(iv["name"])
+        if iname in self.scope_names or lo_name in self.scope_names or hi_name in self.scope_names:
+            self.reject(n, "redeclaration / shadowing of `%s`" % iv["name"])
+        saved_locals, saved_names = dict(self.locals), set(self.scope_names)
+        before = self.assigned if self.assigned is ALL else set(self.assigned)
+        self.scope_names.add(iname)
+        self.locals[iv["id"]] = (iname, "Int", False)
+        self.assigned.add(iname)
+        self.loop_rec, self.in_loop = [], True
+        try:
+            inner = self.stmt(body, ind + 2)
+        finally:
+            rec, self.loop_rec, self.in_loop = self.loop_rec, None, False
+        self.locals, self.scope_names = saved_locals, saved_names
+        self.assigned = before
+        outer = []
+        for nm, ty in rec:
+            if nm in saved_names and (nm, ty) not in outer:
+                outer.append((nm, ty))
+        if not outer:
+            self.reject(n, "loop body assigns nothing that is visible after the loop")
+        for nm, ty in outer:
+            if nm not in before:
+                self.reject(n, "`%s` is changed by the loop body but may be unassigned before the loop" % nm)
+            if re.search(r"(?<![A-Za-z0-9_'])%s(?![A-Za-z0-9_'])" % re.escape(nm), lo + " " + hi):
+                self.reject(n, "loop bound depends on `%s`, which the loop body changes" % nm)
+        tup = outer[0][0] if len(outer) == 1 else "(" + ", ".join(nm for nm, _ in outer) + ")"
+        res = [pad + "let %s : Int := %s" % (lo_name, lo), pad + "let %s : Int := %s" % (hi_name, hi),
+               pad + "%s := forRange %s (%s - %s).toNat (fun %s %s => Id.run do" % (tup, lo_name, hi_name, lo_name, iname, tup)]
+        res += [pad + "    let mut %s : %s := %s" % (nm, ty, nm) for nm, ty in outer]
+        res += inner
+        res += [pad + "    return %s) %s" % (tup, tup)]
+        self.scope_names |= {lo_name, hi_name}
+        return res
+
     # ---- whole kernel
     def out_type(self):
+        if self.spec.get("error_calls"):
+            return "Int × " + self.spec["ret"]
         if self.spec.get("new_classes") is not None:
             return " × ".join(["Int"] * (1 + self.spec["new_slots"]))
         tys = []
@@ -893,6 +1070,25 @@ def translate_kernel(spec, docs, field_docs, repo):
         if not ok or lit.get("kind") != "IntegerLiteral":
             raise Reject("kernel %s: field %s::%s is not a `const` member with an integer-literal in-class initialiser" % (spec["name"], spec["cls"], fld))
         tr.const_fields[fld] = (str(int(lit["value"])), lty)
+    tr.enum_values = {}
+    for en in spec.get("enum_types", ()):
+        eds = [d for d in field_docs if d.get("kind") == "EnumDecl" and d.get("name") == en.split("::")[-1]]
+        if len(eds) != 1:
+            raise Reject("kernel %s: expected exactly one definition of enum %s in %s, found %d" % (spec["name"], en, spec.get("fields_header"), len(eds)))
+        val = -1
+        for ec in kids(eds[0]):
+            if ec.get("kind") != "EnumConstantDecl":
+                continue
+            if kids(ec):
+                lit = strip_casts(kids(ec)[0])
+                while lit.get("kind") in ("ConstantExpr", "ImplicitCastExpr") and kids(lit):
+                    lit = strip_casts(kids(lit)[0])
+                if lit.get("kind") != "IntegerLiteral":
+                    raise Reject("kernel %s: enumerator %s has an initialiser that is not an integer literal" % (spec["name"], ec.get("name")))
+                val = int(lit["value"])
+            else:
+                val += 1
+            tr.enum_values[ec["name"]] = val
     body = [c for c in kids(fn) if c.get("kind") == "CompoundStmt"][0]
     mode = spec["mode"]
     if mode == "function":
@@ -987,6 +1183,20 @@ def u64shl (a s : Nat) : Nat := (a <<< s) % 18446744073709551616
 
 /-- `a + b` on `std::uint64_t` -/
 def u64add (a b : Nat) : Nat := (a + b) % 18446744073709551616
+
+/-- `std::find(v.begin(), v.end(), a) - v.begin()` on a `std::vector<int>`: the length when `a` is missing -/
+def vecFind : List Int → Int → Int
+  | [], _ => 0
+  | x :: xs, a => if x == a then 0 else vecFind xs a + 1
+
+/-- `v[i]` on a `std::vector<int>`; outside the vector (undefined behaviour in C++) the value is 0 — every bridge that
+    goes through `vecGet` has to show that the index is in range -/
+def vecGet (v : List Int) (i : Int) : Int := if i < 0 then 0 else v.getD i.toNat 0
+
+/-- `for (int i = lo; i < lo + n; i++) s = f i s` -/
+def forRange {σ : Type} (lo : Int) : Nat → (Int → σ → σ) → σ → σ
+  | 0, _, s => s
+  | n + 1, f, s => forRange (lo + 1) n f (f lo s)
 
 /-- `bool` -> `int` conversion -/
 def b2i (b : Bool) : Int := if b then 1 else 0
